@@ -86,6 +86,18 @@ fn c07_one(ctx: &Ctx, c: &C07Case, shared: &Mutex<(SearchContext, MoveGenerator)
             Ok(o) => { res = o.result; visited = Some(o.visited); changed = o.changed; }
         }
     }
+    // the same context asked again about the very same position (a hint followed by the move, a recurring position)
+    if c.reuse && !c.via_game && c.depth >= 1 && !legal.is_empty() {
+        let mut rb = to_engine(p);
+        let mut g = shared.lock().unwrap();
+        let (sc, mg) = &mut *g;
+        if sc.search_depth() == c.depth {
+            match run_search(&mut rb, sc, mg, &pool) {
+                Err(msg) => { ctx.violation(&format!("c07:panic:{}", par::last_panic_location()), &format!("searching {} a second time with the same context panicked: {}", p.to_fen(), msg), json!({"fen": p.to_fen(), "depth": c.depth, "pool": c.pool, "second_search_with_the_same_context": true})); }
+                Ok(o2) => { ctx.count("same_position_searched_twice_with_the_same_context", 1); match &o2.result { Ok(m) if rk.contains(&ekey(m)) => {} other => ctx.violation("c07:second-search-answer", &format!("second search of {} with the same context answered {:?}", p.to_fen(), other.as_ref().map(|m| format!("{}", m))), json!({"fen": p.to_fen(), "depth": c.depth})) } }
+            }
+        }
+    }
     // the same context (and generator) asked about the same placement with the other side to move
     if c.reuse && !c.via_game && c.depth >= 1 {
         let mut t = p.clone(); t.turn = p.turn.opp(); t.ep = None;
@@ -394,6 +406,20 @@ pub fn c08(o: &Opts) -> i32 {
             ctx.count("game_reuse_cases_with_a_mate_inside_the_horizon", 1);
         }
     }
+    {
+        let mut tr = Rng::new(o.seed).fork(tag("c08-terminal-roots"));
+        let mut roots = gen::roots_before_terminal(&mut tr, if q { 60_000 } else { 600_000 }, true, if q { 60 } else { 600 });
+        roots.extend(gen::roots_before_terminal(&mut tr, if q { 20_000 } else { 200_000 }, false, if q { 30 } else { 300 }));
+        let mut n = 0;
+        for p in roots {
+            let k = p.legal_moves().len();
+            if k < 2 || k > 40 { continue; }
+            n += 1;
+            let depth = 2 + (n % 3) as u8;
+            cases.insert(0, C08Case::Fresh { p, depth: if k > 20 { depth.min(3) } else { depth }, pool: *tr.pick(&[1usize, 2, 4, 8]) });
+        }
+        ctx.count("roots_shortly_before_a_stalemate_or_mate_of_a_side_with_pieces", n as u64);
+    }
     // a game from the initial position, as the game loops play it
     cases.insert(0, C08Case::GameReuse { p: Pos::start(), depth: 2, plies: if q { 10 } else { 30 }, pool: 8 });
     cases.insert(1, C08Case::GameReuse { p: Pos::from_fen("r1bqkbnr/pppp1ppp/2n5/4p3/4P3/5N2/PPPP1PPP/RNBQKB1R w KQkq - 2 3").unwrap(), depth: 3, plies: if q { 6 } else { 24 }, pool: 16 });
@@ -437,7 +463,7 @@ pub fn c08(o: &Opts) -> i32 {
 // ======================================================================================= C09
 
 #[derive(Clone)]
-struct C09Case { p: Pos, depth: u8, warm: Vec<Pos>, schedules: usize, id: usize }
+struct C09Case { p: Pos, depth: u8, warm: Vec<Pos>, schedules: usize, id: usize, stress_only: bool }
 
 fn build_context(depth: u8, warm: &[Pos]) -> (SearchContext, MoveGenerator) {
     let mut sc = SearchContext::new(depth);
@@ -469,6 +495,7 @@ fn c09_one(ctx: &Ctx, c: &C09Case, seed: u64) {
         let controlled = s % 4 != 3;
         plan.push((strategies[s % strategies.len()], if s == 0 { 1 } else { *rng.pick(&pools) }, controlled));
     }
+    if c.stress_only { plan = vec![(Strategy::Random, 2, false), (Strategy::Random, 8, false), (Strategy::Random, 3, false)]; }
     let mut s = 0;
     while s < plan.len() {
         if ctx.out_of_budget() { break; }
@@ -479,17 +506,52 @@ fn c09_one(ctx: &Ctx, c: &C09Case, seed: u64) {
         let sched = Scheduler::new(total, pool, strategy, sseed, vec![], false);
         let stress = Stress::new(sseed, 40);
         let sink: Arc<dyn SearchSink> = if controlled { sched.clone() } else { stress.clone() };
-        let tp = mon::pool_with_session(pool, Some(sink));
+        let tids: Arc<Mutex<Vec<u32>>> = Arc::new(Mutex::new(vec![]));
+        let tp = mon::pool_with_session_tids(pool, Some(sink), tids.clone());
         let mut b = to_engine(p);
-        // run under a watchdog: no scheduler activity for 120 s => abandon as inconclusive
-        let done = Arc::new(std::sync::atomic::AtomicBool::new(false));
-        let (d2, sch2) = (done.clone(), sched.clone());
-        let wd = std::thread::spawn(move || { loop { std::thread::sleep(Duration::from_millis(200)); if d2.load(Ordering::SeqCst) { return false; } if sch2.idle_for() > Duration::from_secs(120) { sch2.abort(); return true; } } });
-        let res = par::guarded(|| tp.install(|| alpha_beta_search(&mut sc, &mut b, &mut g)));
-        done.store(true, Ordering::SeqCst);
-        let fired = wd.join().unwrap_or(false);
-        if fired && controlled { ctx.inconclusive(&format!("watchdog: no scheduling activity for 120 s on {} ({:?}, pool {})", p.to_fen(), strategy, pool)); ctx.count("watchdog_fired", 1); continue; }
         let st_src = if controlled { sched.clone() } else { stress.inner.clone() };
+        // The search runs on its own thread. Progress = cache operations observed by the sink (logical steps, not time).
+        // No progress for 45 s AND every worker of the pool blocked in five samples over five seconds = a stall (deadlock):
+        // that is what the property forbids. No progress but workers running = slow, reported as inconclusive.
+        let (tx, rx) = std::sync::mpsc::channel();
+        let runner = std::thread::spawn(move || {
+            let r = par::guarded(|| tp.install(|| alpha_beta_search(&mut sc, &mut b, &mut g)));
+            let score = sc.last_score();
+            let _ = tx.send((r, score));
+            drop(tp);
+        });
+        let ops_now = |s: &Arc<Scheduler>| s.with_state(|st| st.writes + st.misses + st.own_hits + st.cross_task_hits + st.prewarmed_hits + st.decisions.len() as u64);
+        let mut last_ops = ops_now(&st_src); let mut last_change = std::time::Instant::now();
+        let mut outcome: Option<(Result<Result<ChessMove, SearchError>, String>, Option<i16>)> = None;
+        let mut stalled: Option<String> = None;
+        loop {
+            match rx.recv_timeout(Duration::from_millis(500)) {
+                Ok(x) => { outcome = Some(x); break; }
+                Err(std::sync::mpsc::RecvTimeoutError::Disconnected) => break,
+                Err(std::sync::mpsc::RecvTimeoutError::Timeout) => {
+                    let o = ops_now(&st_src);
+                    if o != last_ops { last_ops = o; last_change = std::time::Instant::now(); continue; }
+                    if last_change.elapsed() > Duration::from_secs(45) {
+                        let ids = tids.lock().unwrap().clone();
+                        let mut all_blocked = true; let mut seen = vec![];
+                        for _ in 0..5 { let stt = mon::thread_states(&ids); if stt.iter().any(|c| *c == 'R' || *c == 'D' || *c == '?') { all_blocked = false; } seen.push(stt.iter().collect::<String>()); std::thread::sleep(Duration::from_secs(1)); }
+                        if ops_now(&st_src) != last_ops { last_change = std::time::Instant::now(); continue; }
+                        if all_blocked { stalled = Some(format!("no cache operation for {} s and all {} workers blocked (thread states {:?})", last_change.elapsed().as_secs(), ids.len(), seen)); break; }
+                        if last_change.elapsed() > Duration::from_secs(300) { stalled = Some(String::new()); break; }
+                    }
+                }
+            }
+        }
+        if let Some(why) = stalled {
+            sched.abort();
+            std::mem::forget(runner); // the search never returned: leave its threads behind
+            let replay = json!({"fen": p.to_fen(), "depth": c.depth, "context_history": c.warm.iter().map(|x| x.to_fen()).collect::<Vec<_>>(), "schedule": {"pool": pool, "strategy": format!("{:?}", strategy), "controlled": controlled, "seed": sseed}});
+            if why.is_empty() || controlled { ctx.inconclusive(&format!("search on {} ({:?}, pool {}, controlled {}) made no progress for minutes but its workers were not all blocked, or it ran under the serialising scheduler", p.to_fen(), strategy, pool, controlled)); ctx.count("watchdog_fired", 1); }
+            else { ctx.count("stalls_detected", 1); ctx.violation("c09:deadlock", &format!("depth-{} search on {} on a free-running pool of {} threads stopped making progress: {}", c.depth, p.to_fen(), pool, why), replay); }
+            continue;
+        }
+        let _ = runner.join();
+        let (res, final_score) = match outcome { Some(x) => x, None => { ctx.inconclusive("search thread ended without a result"); continue; } };
         let (hash, decisions, cross, prewarm_hits, late, rewrites, ops, confl) = st_src.with_state(|st| (st.trace_hash, st.decisions.clone(), st.cross_task_hits, st.prewarmed_hits, st.late_arrivals, st.rewrites_different, st.writes + st.misses + st.own_hits + st.cross_task_hits + st.prewarmed_hits, st.conflicts.clone()));
         ctx.count(if controlled { "controlled_schedules_run" } else { "free_running_stress_runs" }, 1);
         ctx.count(&format!("runs_on_pool_of_{}", pool), 1);
@@ -507,7 +569,7 @@ fn c09_one(ctx: &Ctx, c: &C09Case, seed: u64) {
             Err(msg) => ctx.violation(&format!("c09:panic:{}", par::last_panic_location()), &format!("search panicked under schedule {:?}/pool {} on {}: {}", strategy, pool, p.to_fen(), msg), replay),
             Ok(Err(_)) => ctx.count("search_errors_(C07_business)", 1),
             Ok(Ok(m)) => {
-                let got = (ekey(&m), sc.last_score());
+                let got = (ekey(&m), final_score);
                 if got != base {
                     let mut r2 = replay; r2["observed"] = json!({"move": key_str(&got.0), "score": got.1});
                     ctx.violation(if c.warm.is_empty() { "c09:answer-depends-on-schedule:fresh-cache" } else { "c09:answer-depends-on-schedule:prewarmed-cache" },
@@ -587,7 +649,7 @@ pub fn c09(o: &Opts) -> i32 {
         // a pre-warmed cache only overlaps with the new search from depth 3 on (the earlier searches then reach the
         // new root's children at another remaining depth), so warm cases always search to depth 3
         let depth = if !warm.is_empty() { 3 } else if q { if big { 2 } else { 3 } } else { 2 + r.below(if big { 2 } else { 3 }) as u8 };
-        cases.push(C09Case { p, depth, warm, schedules: if q { 10 } else { 40 }, id: i });
+        cases.push(C09Case { p, depth, warm, schedules: if q { 10 } else { 40 }, id: i, stress_only: false });
     }
     // positions with several equally quick forced mates inside the horizon: whichever root task finishes
     // first must not decide which of them is returned
@@ -618,7 +680,7 @@ pub fn c09(o: &Opts) -> i32 {
             if best.abs() < 16000 || vals.iter().filter(|v| **v == best).count() < 2 { continue; }
             found += 1;
             ctx.count("positions_with_several_equally_quick_mates", 1);
-            cases.insert(found.min(cases.len()), C09Case { p, depth, warm: vec![], schedules: if q { 8 } else { 30 }, id: 1000 + found });
+            cases.insert(found.min(cases.len()), C09Case { p, depth, warm: vec![], schedules: if q { 8 } else { 30 }, id: 1000 + found, stress_only: false });
         }
     }
     if o.replay.is_none() {
@@ -646,7 +708,15 @@ pub fn c09(o: &Opts) -> i32 {
             if n < 3 || n > 9 { continue; }
             added += 1;
             ctx.count("tiny_endings_searched_to_depth_5", 1);
-            cases.insert(added.min(cases.len()), C09Case { p, depth: 5, warm: vec![], schedules: if q { 5 } else { 16 }, id: 2000 + added });
+            cases.insert(added.min(cases.len()), C09Case { p, depth: 5, warm: vec![], schedules: if q { 5 } else { 16 }, id: 2000 + added, stress_only: false });
+        }
+    }
+    // a few large searches (hundreds of thousands of cache entries) run free on real threads only: whatever the
+    // engine does when its shared structures grow must neither change the answer nor stall
+    if o.replay.is_none() {
+        for (k, fen) in ["8/8/8/4k3/8/8/1Q6/K7 w - - 0 1", "8/8/3k4/8/8/8/6R1/K6R w - - 0 1", "4k3/8/8/8/8/8/4q3/K7 b - - 0 1"].iter().enumerate() {
+            if q && k == 2 { continue; }
+            if let Ok(p) = Pos::from_fen(fen) { cases.insert(1 + k, C09Case { p, depth: 5, warm: vec![], schedules: 3, id: 3000 + k, stress_only: true }); ctx.count("large_free_running_searches_planned", 1); }
         }
     }
     if let Some(path) = &o.replay {
@@ -678,7 +748,7 @@ pub fn c09(o: &Opts) -> i32 {
             }
         }
         let warm = v["context_history"].as_array().map(|a| a.iter().filter_map(|x| x.as_str().and_then(|s| Pos::from_fen(s).ok())).collect()).unwrap_or_default();
-        cases = vec![C09Case { p: Pos::from_fen(v["fen"].as_str().unwrap_or("")).unwrap(), depth: v["depth"].as_u64().unwrap_or(2) as u8, warm, schedules: 24, id: 0 }];
+        cases = vec![C09Case { p: Pos::from_fen(v["fen"].as_str().unwrap_or("")).unwrap(), depth: v["depth"].as_u64().unwrap_or(2) as u8, warm, schedules: 24, id: 0, stress_only: false }];
     }
     par::for_each(&cases, 4, |i, c| c09_one(&ctx, c, o.seed ^ (i as u64 + 1) * 0x9E37), |_i, c, msg| ctx.violation(&format!("c09:panic:{}", par::last_panic_location()), &format!("panic around scheduling on {}: {}", c.p.to_fen(), msg), json!({"fen": c.p.to_fen()})));
     let traces = ctx.distinct_count();
